@@ -2313,8 +2313,10 @@ func (c *Ctx) SNBTPrintRange(pkg string) []core.Ob {
 // T-SCANSTATE[delegated-skip-space]: the scanner's state functions call one
 // another ("the number ended here, so this byte is whatever follows a value").
 // A state function that other state functions call, and that answers "skip this
-// blank", has to make itself the current state before it returns: otherwise the
-// state that delegated stays current, and the byte after the blank continues
+// blank", has to make itself the current state before it returns where a state
+// that goes on with a literal (one that answers "continue" for some byte) is
+// among those that delegate to it, directly or through other states: otherwise
+// the state that delegated stays current, and the byte after the blank continues
 // the literal that had ended (`[1 2]` reads as one literal and the decoder, out
 // of step with the scanner, panics).
 
@@ -2389,14 +2391,72 @@ func (c *Ctx) ScannerDelegatedSkip(pkg string) []core.Ob {
 		return false
 	}
 	delegated := map[*ssa.Function]bool{}
+	callers := map[*ssa.Function][]*ssa.Function{}
 	for _, fn := range states {
 		for _, ci := range callsIn(fn, func(_ string, cc *ssa.CallCommon) bool { return cc.StaticCallee() != nil }) {
 			g := core.Origin(ci.Common().StaticCallee())
 			for _, s := range states {
 				if s == g && g != fn && !notBlankAt(fn, ci.Block()) {
 					delegated[g] = true
+					callers[g] = append(callers[g], fn)
 				}
 			}
+		}
+	}
+	// Staying in the delegating state over a blank is wrong where that state goes on with a literal
+	// (it answers "continue" for some byte: the number and unquoted-string states). A state that only
+	// ever begins something (`[` delegating its blanks to the state behind `[B;`) may stay current.
+	var cont *big.Int
+	for _, pk := range c.P.Pkgs {
+		if core.Rel(pk.PkgPath) == pkg {
+			if k, ok := pk.Types.Scope().Lookup("scanContinue").(*types.Const); ok {
+				if v, ok := constant.Int64Val(k.Val()); ok {
+					cont = bi(v)
+				}
+			}
+		}
+	}
+	continues := func(fn *ssa.Function) bool {
+		if cont == nil {
+			return true
+		}
+		for _, b := range fn.Blocks {
+			ret, ok := b.Instrs[len(b.Instrs)-1].(*ssa.Return)
+			if !ok || len(ret.Results) != 1 {
+				continue
+			}
+			vals := []ssa.Value{ret.Results[0]}
+			if phi, ok := ret.Results[0].(*ssa.Phi); ok {
+				vals = phi.Edges
+			}
+			for _, v := range vals {
+				if kv, ok := constIntVal(v); ok && kv == cont.Int64() {
+					return true
+				}
+			}
+		}
+		return false
+	}
+	midLiteral := func(g *ssa.Function) bool {
+		seen := map[*ssa.Function]bool{g: true}
+		work := append([]*ssa.Function(nil), callers[g]...)
+		for len(work) > 0 {
+			f := work[0]
+			work = work[1:]
+			if seen[f] {
+				continue
+			}
+			seen[f] = true
+			if continues(f) {
+				return true
+			}
+			work = append(work, callers[f]...)
+		}
+		return false
+	}
+	for g := range delegated {
+		if !midLiteral(g) {
+			delete(delegated, g)
 		}
 	}
 	for _, fn := range states {
